@@ -16,7 +16,7 @@ EXPLANATION = (
     "MaxIterations/MaxTime; the result is status != Unsolved; (R3) every cycle folds elapsed time into the root "
     "timer (Timers::suspend) so solve_time advances; (R4) the timer stack is balanced on every path; (R5) the "
     "auxiliary loops are counter-bounded; (R6) dimension checks dominate construction and each relation diverges "
-    "when violated; (R7) the unreachable!() cone methods are dead: guarded by is_symmetric, or unreachable from the API roots; (R7b) settings validator and dispatcher accept the same option strings; (R9) P is reduced to its upper triangle and the cone list collapsed before use; (R10) the progress printer reaches _exp_str_reformat (which unwraps find('e')) only on the true edge of is_finite(value); (R11) the QDLDL wrapper unwraps refactor() only while the engine's pivot regularisation is unconditionally on; (R12) who-may-write the status (re-run of the status provenance rule: a rollback or helper that resets it to Unsolved on a terminating path returns a non-terminal status). NOT decided: absence "
+    "when violated; (R7) the unreachable!() cone methods are dead: guarded by is_symmetric, or unreachable from the API roots; (R7b) settings validator and dispatcher accept the same option strings; (R9) P is reduced to its upper triangle and the cone list collapsed before use; (R10) the progress printer reaches _exp_str_reformat (which unwraps find('e')) only on the true edge of is_finite(value); (R11) the QDLDL wrapper unwraps refactor() only while the engine's pivot regularisation is unconditionally on; (R12) who-may-write the status (re-run of the status provenance rule: a rollback or helper that resets it to Unsolved on a terminating path returns a non-terminal status); (R13) every index in the printing module is bounded by the indexed collection's own length. NOT decided: absence "
     "of all panics (bounds checks, arithmetic, BLAS failures), termination of data-dependent inner loops.")
 ASSUMPTIONS = [
     'rustc MIR construction and trait resolution are correct',
@@ -257,6 +257,11 @@ def clock(rep, F, E, tag):
         R.check(len(tt) >= 1, 'update-reads-total_time' + tag, 'Info::update does not read Timers::total_time', upd.loc())
         wr = E.direct_write_sites(upd, 'DefaultInfo', 'solve_time')
         R.check(len(wr) >= 1, 'update-writes-solve_time' + tag, 'Info::update does not store solve_time', upd.loc())
+        # ... and what it stores is the elapsed time with its fractional part: whole seconds never exceed a sub-second limit
+        vals = [canon(upd.sym_rvalue(st['rv'])) for bi, si, st in upd.assignments() if st['p']['p'] and canon(upd.sym_place(st['p'])) == 'self.solve_time']
+        R.check(bool(vals) and all(re.fullmatch(r'as_secs_f(64|32)\(total_time\(arg\d\)\)', v) for v in vals), 'solve_time-fractional' + tag,
+                'Info::update stores solve_time = %s: the value compared with time_limit must be total_time().as_secs_f64() (a truncation to whole '
+                'seconds makes every sub-second or fractional limit fire late or never)' % vals, upd.loc())
         # InnerTimer::suspend accumulates elapsed when started; Timers::suspend reaches it
         it = F.one(name='suspend', adt='InnerTimer')
         w = E.direct_write_sites(it, 'InnerTimer', 'elapsed')
@@ -716,6 +721,35 @@ def qdldl_unwrap_guard(rep, F, tag, rid='C04.R11'):
     R.guard(body)
 
 
+def print_index_bounds(rep, F, tag):
+    """The configuration header is printed inside solve(); an index panic there aborts the solve.  Every index into a local
+    collection in the printing module must be bounded by that collection itself: a constant 0 (under the non-empty guard that
+    precedes it), len(v) - k of the same v, or a range ending at len(v) - k - not a count obtained elsewhere."""
+    R = rep.rule('C04.R13', 'printing cannot panic on an index: every index in the printing module is bounded by the indexed collection itself')
+
+    def body():
+        n = 0
+        for f in F.fns:
+            if not f.file.endswith('info_print.rs') or f.from_expansion:
+                continue
+            for c in f.calls:
+                if c.callee.name not in ('index', 'index_mut') or len(c.args) != 2:
+                    continue
+                n += 1
+                v = canon(f.sym_operand(c.args[0]))
+                i_ = canon(f.sym_operand(c.args[1])).replace('withoverflow', '').replace(').0', ')')
+                lv = 'len(%s)' % v
+                ok = (re.fullmatch(r'\d+_usize', i_) is not None
+                      or re.fullmatch(r'sub\(%s, \d+_usize\)' % re.escape(lv), i_) is not None
+                      or re.fullmatch(r'Range(To|From)?::Range(To|From)?\((\d+_usize, )?(sub\(%s, \d+_usize\)|%s|\d+_usize)\)' % (re.escape(lv), re.escape(lv)), i_) is not None)
+                R.check(ok, 'self-bounded|%s|%s%s' % (short(f.key), i_[:40], tag),
+                        '%s indexes %s with %s, which is not bounded by that collection\'s own length: if the two disagree the header panics inside '
+                        'solve()' % (f.key, v[:60], i_[:80]), f.loc(c.sp))
+        R.check(n >= 3, 'index-sites' + tag, 'only %d index sites found in the printing module' % n)
+
+    R.guard(body)
+
+
 def run(ctx, rep, tier):
     for cfg in CONFIGS:
         F = ctx.facts(cfg)
@@ -732,6 +766,7 @@ def run(ctx, rep, tier):
         settings_strings(rep, F, tag)
         exp_format_guard(rep, F, tag)
         qdldl_unwrap_guard(rep, F, tag)
+        print_index_bounds(rep, F, tag)
         shared.status_provenance(rep, F, E, tag, 'C04.R12', statuses=('Solved',), full_fn='check_convergence_full', slot=9)
         # degenerate cones (empty, singleton) are collapsed before anything else sees the cone list
         from . import c05
